@@ -147,6 +147,11 @@ class FoldThroughEnvironment(VC):
         I.specs["Expr.as_const"] = A.abstract_fn("child.as_const", returns="obj", raises=[N.Impossible])
         I.specs["Environment.getattr"] = A.abstract_fn("environment.getattr", returns="obj", raises=[("any", Exception)])
         I.specs["Environment.getitem"] = A.abstract_fn("environment.getitem", returns="obj", raises=[("any", Exception)])
+        # /repo 745b182: the folded value goes through nodes._safe_const, which returns its argument or raises Impossible
+        # (has_safe_repr is false); its own contract is C30.consttext.intermediate_folds_guarded
+        I.specs["jinja2.nodes:_safe_const"] = A.abstract_fn("_safe_const", result=lambda st, a, k: a[0], raises=[N.Impossible])
+        if hasattr(N, "_safe_const"):
+            I.specs[("fn", id(N._safe_const))] = I.specs["jinja2.nodes:_safe_const"]
 
     def setup(self, I, st):
         g = emit.Gen(st)
